@@ -291,6 +291,25 @@ func genMatchCase(r *vlib.R, emit func(string)) int {
 		emit("bl state")
 		n += 1 + emitQueries(r, u, emit, 3+r.Intn(5))
 	}
+	emit("bl held")
+	n++
+	if r.Chance(1, 3) {
+		n += emitCServe(r, u, emit)
+		// two blocked address queries for different names back to back, replies kept
+		for i := 0; i < 2; i++ {
+			l := append(randLabels(r, 1), vlib.Pick(r, u.names)...)
+			if wn := wireName(joinLabels(l)); wn != "" {
+				emit(fmt.Sprintf("bl serve %s %d", enc(wn), vlib.Pick(r, []uint16{dns.TypeA, dns.TypeAAAA})))
+				n++
+			}
+		}
+		emit("bl held")
+		n++
+	}
+	if r.Chance(1, 4) {
+		n += emitDirLoad(r, u, emit)
+		n += emitQueries(r, u, emit, 2)
+	}
 	if r.Chance(1, 3) {
 		n += emitReload(emit)
 	}
@@ -344,6 +363,11 @@ func genPersistCase(r *vlib.R, emit func(string)) int {
 			emit(fmt.Sprintf("bl persist %d %s", pending[j], fault))
 			pending = append(pending[:j], pending[j+1:]...)
 			n++
+			continue
+		}
+		if r.Chance(1, 7) {
+			// the directory walk of refreshRemote lands here, possibly while a persist is staging
+			n += emitDirLoad(r, u, emit)
 			continue
 		}
 		e, _ := u.entry(r, vlib.Pick(r, []string{"plain", "plain", "wild"}))
@@ -456,8 +480,80 @@ func genCrashCase(r *vlib.R, emit func(string)) int {
 	return 1
 }
 
+// stagingText: what a persist() in progress would have in its staging file at
+// some moment - a prefix (whole lines, or cut inside a line) of the rendering of
+// the current memory or of an older list - or other text.
+func stagingText(r *vlib.R, u *universe) string {
+	if cs == nil || cs.b == nil {
+		return "_"
+	}
+	if r.Chance(1, 6) {
+		return "_"
+	}
+	data, err := os.ReadFile(cs.localPath())
+	full := header + "\n"
+	if err == nil && r.Chance(1, 3) {
+		full = string(data) // the older list
+	} else {
+		m, wild := memLists()
+		for _, e := range m {
+			full += e + "\n"
+		}
+		for _, w := range wild {
+			full += "*." + w + "\n"
+		}
+	}
+	if r.Chance(1, 5) {
+		e, _ := u.entry(r, "plain")
+		full += dns.Fqdn(strings.ToLower(e)) + "\n"
+	}
+	cut := len(full)
+	switch r.Intn(3) {
+	case 0: // everything written, not yet renamed
+	case 1: // cut anywhere, also inside a line
+		cut = r.Intn(len(full) + 1)
+	default: // cut at a line end
+		lines := strings.SplitAfter(full, "\n")
+		k := r.Intn(len(lines) + 1)
+		cut = len(strings.Join(lines[:k], ""))
+	}
+	if cut == 0 {
+		return "-"
+	}
+	return enc(full[:cut])
+}
+
+func emitDirLoad(r *vlib.R, u *universe, emit func(string)) int {
+	emit("bl dirload " + stagingText(r, u))
+	return 1
+}
+
+// emitCServe: 2-5 names, most of them blocked, served concurrently for one address type.
+func emitCServe(r *vlib.R, u *universe, emit func(string)) int {
+	var names []string
+	for i := 0; i < 2+r.Intn(4); i++ {
+		l := append(randLabels(r, 1+r.Intn(2)), vlib.Pick(r, u.names)...)
+		if wn := wireName(joinLabels(l)); wn != "" {
+			names = append(names, wn)
+		}
+	}
+	if len(names) < 2 {
+		return 0
+	}
+	emit(fmt.Sprintf("bl cserve %d %s", vlib.Pick(r, []uint16{dns.TypeA, dns.TypeAAAA, dns.TypeA, dns.TypeAAAA, dns.TypeTXT}), encList(names)))
+	return 1
+}
+
 // raceBudget: how many persistrace ops (80 ms each) a run may still emit.
 var raceBudget int
+
+func memLists() ([]string, []string) {
+	if cs == nil || cs.b == nil {
+		return nil, nil
+	}
+	m, wild, _ := dumpOf()
+	return m, wild
+}
 
 func versionOf() uint64 {
 	v, _ := versions()
@@ -474,6 +570,15 @@ func gen(r *vlib.R, n int, tier string, emit func(string)) {
 	emit("bl serve " + enc("sub.example.com.") + " 28")
 	emit("bl serve " + enc("sub.example.com.") + " 16")
 	emit("bl serve " + enc("example.org.") + " 1")
+	emit("bl serve " + enc("other.example.com.") + " 1")
+	emit("bl serve " + enc("other.example.com.") + " 28")
+	emit("bl held")
+	emit("bl cserve 1 " + encList([]string{"a.example.com.", "b.example.com.", "c.example.org.", "d.example.com."}))
+	emit("bl set " + enc("staged.example.net"))
+	emit("bl dirload " + enc(header+"\nexample.com.\nstaged.exam"))
+	emit("bl dirload _")
+	emit("bl set " + enc("after.example.net"))
+	emit("bl reload")
 	crashes, concs := 14, 12
 	raceBudget = 8
 	if tier == "thorough" {
